@@ -153,8 +153,8 @@ Proof.
 Qed.
 
 (* the state of every peer after TransportEvent::ConnectionEstablished *)
-Lemma established_state L m p c lst f :
-  let r := do_established L m p c lst f in
+Lemma established_state L m p c t lst f :
+  let r := do_established L m p c t lst f in
   (forall q, q <> p -> state_of (fst r) q = state_of m q) /\
   ((existsb (is_accept c) (snd r) = false /\
     (state_of (fst r) p = state_of m p \/ state_of (fst r) p = st_on_dial_failure (state_of m p) c))
@@ -165,11 +165,13 @@ Lemma established_state L m p c lst f :
       else fst (st_on_established (state_of m p) c))).
 Proof.
   cbn zeta. unfold do_established.
-  set (m0 := if lst then m else set_known m p).
+  set (me := set_oerrs m (remove_key c (oerrs m))).
+  set (m0 := if lst then me else add_addr me p (canon p t)).
   set (m1 := set_pending m0 (remove_key c (pending m0))).
-  assert (S1 : forall q, state_of m1 q = state_of m q) by (intro q; subst m1 m0; destruct lst; reflexivity).
+  assert (S1 : forall q, state_of m1 q = state_of m q).
+  { intro q. subst m1 m0 me. rewrite so_pending. destruct lst; [reflexivity | now rewrite so_add_addr]. }
   assert (Hchk :
-    let r := do_established_checked L m1 p c lst f in
+    let r := do_established_checked L m1 p c t lst f in
     (forall q, q <> p -> state_of (fst r) q = state_of m q) /\
     ((existsb (is_accept c) (snd r) = false /\
       (state_of (fst r) p = state_of m p \/ state_of (fst r) p = st_on_dial_failure (state_of m p) c))
@@ -193,28 +195,37 @@ Proof.
                    else set_limits m2 (ins m2) (limit_insert (max_out L) c (outs m2))).
         assert (S3 : forall q, state_of m3 q = if q =? p then s' else state_of m q).
         { intro q. subst m3 m2. destruct lst; rewrite so_limits, state_of_set_state, S1; reflexivity. }
-        set (mc := match state_of m p with
-                   | Opening d => (set_pending m3 (remove_key d (pending m3)), [CallCancel d])
-                   | _ => (m3, [])
-                   end).
-        assert (S4 : forall q, state_of (fst mc) q = state_of m3 q)
-          by (intro q; subst mc; destruct (state_of m p); reflexivity).
-        assert (C4 : existsb (is_accept c) (snd mc) = false)
-          by (subst mc; destruct (state_of m p); reflexivity).
-        destruct mc as [m4 cancels]. cbn [fst snd] in S4, C4.
-        assert (Hacc : existsb (is_accept c) (cancels ++ [CallAccept c]) = true).
-        { rewrite existsb_app, C4. cbn [existsb is_accept orb]. lia. }
-        destruct f.
-        * destruct (do_closed m4 p c) as [m5 rp] eqn:Ec. cbn [fst snd].
-          assert (S5 : forall q, state_of m5 q = state_of (fst (do_closed m4 p c)) q) by (now rewrite Ec).
-          split.
-          -- intros q Hq. rewrite S5, closed_state. assert (q =? p = false) as -> by lia.
-             rewrite S4, S3. assert (q =? p = false) as -> by lia. reflexivity.
-          -- right. split; [exact Hacc|]. rewrite S5, closed_state. assert (p =? p = true) as -> by lia.
-             rewrite S4, S3. assert (p =? p = true) as -> by lia. reflexivity.
-        * cbn [fst snd]. split.
-          -- intros q Hq. rewrite so_accepting, S4, S3. assert (q =? p = false) as -> by lia. reflexivity.
-          -- right. split; [exact Hacc|]. rewrite so_accepting, S4, S3. assert (p =? p = true) as -> by lia. reflexivity.
+        assert (Hfin : forall m4 cancels, (forall q, state_of m4 q = state_of m3 q) ->
+                  existsb (is_accept c) cancels = false ->
+                  let r := est_finish m4 p c t lst f cancels in
+                  (forall q, q <> p -> state_of (fst r) q = state_of m q) /\
+                  ((existsb (is_accept c) (snd r) = false /\
+                    (state_of (fst r) p = state_of m p \/ state_of (fst r) p = st_on_dial_failure (state_of m p) c))
+                   \/
+                   (existsb (is_accept c) (snd r) = true /\
+                    state_of (fst r) p = if f then fst (st_on_closed s' c) else s'))).
+        { intros m4 cancels S4 C4. cbn zeta. unfold est_finish.
+          assert (Hacc : existsb (is_accept c) (cancels ++ [CallAccept c t]) = true).
+          { rewrite existsb_app, C4. cbn [existsb is_accept orb]. lia. }
+          destruct f.
+          * destruct (do_closed m4 p c) as [m5 rp] eqn:Ec. cbn [fst snd].
+            assert (S5 : forall q, state_of m5 q = state_of (fst (do_closed m4 p c)) q) by (now rewrite Ec).
+            split.
+            -- intros q Hq. rewrite S5, closed_state. assert (q =? p = false) as -> by lia.
+               rewrite S4, S3. assert (q =? p = false) as -> by lia. reflexivity.
+            -- right. split; [exact Hacc|]. rewrite S5, closed_state. assert (p =? p = true) as -> by lia.
+               rewrite S4, S3. assert (p =? p = true) as -> by lia. reflexivity.
+          * cbn [fst snd]. split.
+            -- intros q Hq. rewrite so_accepting, S4, S3. assert (q =? p = false) as -> by lia. reflexivity.
+            -- right. split; [exact Hacc|]. rewrite so_accepting, S4, S3. assert (p =? p = true) as -> by lia. reflexivity. }
+        assert (Hcan : forall d ts, existsb (is_accept c) (map (CallCancel d) ts) = false).
+        { intros d ts. induction ts as [|x r IH]; cbn [map existsb is_accept orb]; [reflexivity | exact IH]. }
+        destruct (state_of m p) as [r sc|d ts|d|d] eqn:Ep; cbv beta iota zeta;
+          try (apply Hfin; [intro q; reflexivity | reflexivity]).
+        destruct (negb (forallb (installed L) ts)).
+        * cbn [fst snd existsb is_accept orb]. split; [intros q _; apply S1|]. left. split; [reflexivity|]. left.
+          rewrite S1. exact Ep.
+        * apply Hfin; [intro q; apply so_pending | apply Hcan].
       + cbn [fst snd existsb is_accept orb]. split; [intros q _; apply S1|]. left. split; [reflexivity|]. left. apply S1.
   }
   destruct (lookup c (pending m0)) as [dp|].
@@ -223,14 +234,14 @@ Proof.
   - exact Hchk.
 Qed.
 
-Lemma rec_established L m l p c lst f :
+Lemma rec_established L m l p c t lst f :
   RecInv m l -> lookup c l = None ->
-  RecInv (fst (do_established L m p c lst f))
-         (if existsb (is_accept c) (snd (do_established L m p c lst f)) && negb f
+  RecInv (fst (do_established L m p c t lst f))
+         (if existsb (is_accept c) (snd (do_established L m p c t lst f)) && negb f
           then (c, (p, lst)) :: l else l).
 Proof.
-  intros [H1 H2] Hc. destruct (established_state L m p c lst f) as [Hq Hp].
-  set (r := do_established L m p c lst f) in *.
+  intros [H1 H2] Hc. destruct (established_state L m p c t lst f) as [Hq Hp].
+  set (r := do_established L m p c t lst f) in *.
   assert (Hfresh : forall q x, recorded (state_of m q) x -> x <> c).
   { intros q x Hx E. subst x. destruct (H1 _ _ Hx) as [b Hb]. congruence. }
   assert (Hkeep : forall x v, x <> c -> lookup x ((c, (p, lst)) :: l) = v -> lookup x l = v).
@@ -259,51 +270,81 @@ Proof.
       * rewrite (Hq q Hne). apply H2.
 Qed.
 
-Lemma rec_opening m l p d : RecInv m l -> RecInv (set_state m p (Opening d)) l.
+Lemma rec_opening m l p d ts : RecInv m l -> RecInv (set_state m p (Opening d ts)) l.
 Proof. intro I. apply rec_set_state; [exact I| |exact Logic.I]; cbn; tauto. Qed.
 Lemma rec_dialing m l p d : RecInv m l -> RecInv (set_state m p (Dialing d)) l.
 Proof. intro I. apply rec_set_state; [exact I| |exact Logic.I]; cbn; tauto. Qed.
 Lemma rec_disconnected m l p : RecInv m l -> RecInv (set_state m p (Disconnected None)) l.
 Proof. intro I. apply rec_set_state; [exact I| |exact Logic.I]; cbn; tauto. Qed.
 
+Lemma rec_add_addr m l p a : RecInv m l -> RecInv (add_addr m p a) l.
+Proof. intro R. eapply rec_state_eq; [|exact R]. intro q. apply so_add_addr. Qed.
+
+Lemma rec_dial_peer L m l p ts fl : RecInv m l -> RecInv (fst (do_dial_peer L m p ts fl)) l.
+Proof.
+  intro R. unfold do_dial_peer. destruct (limit_reached _ _); [exact R|]. destruct (p =? LOCAL); [exact R|].
+  destruct (can_dial (state_of m p)); try exact R. destruct (is_nil _); [exact R|].
+  destruct (open_calls L (next_conn m) ts fl) as [calls ok]. destruct ok; cbn [fst].
+  + eapply rec_state_eq; [intro q; apply so_pending|]. apply rec_opening. eapply rec_state_eq; [|exact R]. reflexivity.
+  + apply rec_opening. eapply rec_state_eq; [|exact R]. reflexivity.
+Qed.
+
+Lemma rec_dial_addr L m l p t a f : RecInv m l -> RecInv (fst (do_dial_addr L m p t a f)) l.
+Proof.
+  intro R. unfold do_dial_addr. destruct (negb _); [exact R|].
+  assert (R0 : RecInv (add_addr (bump_conn m) p a) l).
+  { apply rec_add_addr. eapply rec_state_eq; [|exact R]. reflexivity. }
+  destruct (can_dial _); try exact R0. destruct f; cbn [fst].
+  + cbn [st_on_dial_failure]. destruct (next_conn m =? next_conn m).
+    * apply rec_disconnected. now apply rec_dialing.
+    * apply rec_dialing. now apply rec_dialing.
+  + eapply rec_state_eq; [intro q; apply so_pending|]. now apply rec_dialing.
+Qed.
+
+Lemma rec_dial_shape L m l a f : RecInv m l -> RecInv (fst (do_dial_shape L m a f)) l.
+Proof.
+  intro R. unfold do_dial_shape. destruct (limit_reached _ _); [exact R|].
+  destruct (DialShape.dial_shape LISTEN a) as [code|p|p]; [exact R | now apply rec_dial_addr | now apply rec_dial_addr].
+Qed.
+
 Lemma rec_step L m l e :
   RecInv m l -> CapInv L m l -> env_ok m l e ->
   RecInv (fst (step L m e)) (live_step e (snd (step L m e)) l).
 Proof.
-  intros R I He. destruct e as [p f|p f|p|c pa|c f|c pa|p c lst f|c|c ok|p c| |a]; cbn [step live_step env_ok] in *.
-  - unfold do_dial_peer. destruct (limit_reached _ _); [exact R|]. destruct (p =? LOCAL); [exact R|].
-    destruct (can_dial (state_of m p)); try exact R. destruct (negb (mem p (known m))); [exact R|].
-    destruct f; cbn [fst].
-    + apply rec_opening. eapply rec_state_eq; [|exact R]. reflexivity.
-    + eapply rec_state_eq; [intro q; apply so_pending|]. apply rec_opening. eapply rec_state_eq; [|exact R]. reflexivity.
-  - unfold do_dial_addr. destruct (limit_reached _ _); [exact R|].
-    assert (R0 : RecInv (set_known (bump_conn m) p) l) by (eapply rec_state_eq; [|exact R]; reflexivity).
-    destruct (can_dial _); try exact R0. destruct f; cbn [fst].
-    + cbn [st_on_dial_failure]. destruct (next_conn m =? next_conn m).
-      * apply rec_disconnected. now apply rec_dialing.
-      * apply rec_dialing. now apply rec_dialing.
-    + eapply rec_state_eq; [intro q; apply so_pending|]. now apply rec_dialing.
-  - cbn [fst]. eapply rec_state_eq; [|exact R]. reflexivity.
-  - unfold do_dial_failure.
-    assert (R0 : RecInv (set_known m pa) l) by (eapply rec_state_eq; [|exact R]; reflexivity).
-    destruct (lookup c (pending (set_known m pa))) as [p|]; cbn [fst]; [|exact R0].
+  intros R I He.
+  destruct e as [p ts fl|p t f|p t|c t pa|c t f|c t pa|p c t lst f|c t|c ok|p c| |a|p ts fl clog|a clog];
+    cbn [step live_step env_ok] in *.
+  - now apply rec_dial_peer.
+  - now apply rec_dial_shape.
+  - cbn [fst]. destruct (installed L _); [now apply rec_add_addr | exact R].
+  - destruct (installed L t); [|exact R]. unfold do_dial_failure.
+    assert (R0 : RecInv (add_addr m pa (canon pa t)) l) by now apply rec_add_addr.
+    destruct (lookup c (pending (add_addr m pa (canon pa t)))) as [p|]; cbn [fst]; [|exact R0].
     apply rec_set_state.
     + eapply rec_state_eq; [|exact R0]. reflexivity.
     + intros x Hx. eapply recorded_dial_failure_rev. exact Hx.
     + apply wf_dial_failure. destruct R0 as [_ W]. apply W.
-  - unfold do_opened. destruct (lookup c (pending m)) as [p|]; cbn [fst]; [|exact R].
-    set (m1 := set_known (set_pending m (remove_key c (pending m))) p).
-    assert (R1 : RecInv m1 l) by (eapply rec_state_eq; [|exact R]; reflexivity).
-    destruct (state_of m1 p); try exact R1. destruct f; cbn [fst].
+  - destruct (installed L t); [|exact R]. unfold do_opened.
+    set (me := set_oerrs m (remove_key c (oerrs m))).
+    assert (Re : RecInv me l) by (eapply rec_state_eq; [|exact R]; reflexivity).
+    destruct (lookup c (pending me)) as [p|]; cbn [fst]; [|exact Re].
+    set (m1 := add_addr (set_pending me (remove_key c (pending me))) p (canon p t)).
+    assert (R1 : RecInv m1 l) by (apply rec_add_addr; eapply rec_state_eq; [|exact Re]; reflexivity).
+    destruct (state_of m1 p) as [r sc|d ts|d|d]; try exact R1.
+    destruct (negb (forallb (installed L) ts)); [now apply rec_dialing|].
+    destruct f; cbn [fst].
     + apply rec_disconnected. now apply rec_dialing.
     + eapply rec_state_eq; [intro q; apply so_pending|]. now apply rec_dialing.
-  - unfold do_open_failure.
-    assert (R0 : RecInv (set_known m pa) l) by (eapply rec_state_eq; [|exact R]; reflexivity).
-    destruct (lookup c (pending (set_known m pa))) as [p|]; cbn [fst]; [|exact R0].
-    destruct (state_of (set_known m pa) p); try exact R0. cbn [fst].
-    eapply rec_state_eq; [intro q; apply so_pending|]. now apply rec_disconnected.
-  - now apply rec_established.
-  - destruct (limit_reached _ _); exact R.
+  - destruct (installed L t); [|exact R]. unfold do_open_failure.
+    assert (R0 : RecInv (add_addr m pa (canon pa t)) l) by now apply rec_add_addr.
+    destruct (lookup c (pending (add_addr m pa (canon pa t)))) as [p|]; cbn [fst]; [|exact R0].
+    destruct (state_of (add_addr m pa (canon pa t)) p) as [r sc|d ts|d|d]; try exact R0.
+    destruct (mem t ts); [|exact R0].
+    destruct (remove_tr t ts) as [|x r]; cbn [fst].
+    + eapply rec_state_eq; [intro q; rewrite so_oerrs; apply so_pending|]. now apply rec_disconnected.
+    + eapply rec_state_eq; [intro q; apply so_oerrs|]. now apply rec_opening.
+  - destruct (installed L t); [now apply rec_established | exact R].
+  - destruct (installed L t); [|exact R]. destruct (limit_reached _ _); exact R.
   - unfold do_accept_done. destruct (lookup c (accepting m)) as [[p b0]|] eqn:Ea.
     2:{ exfalso. exact (lookup_none_keys _ _ Ea He). }
     set (m1 := set_accepting m (remove_first c (accepting m))).
@@ -315,13 +356,11 @@ Proof.
   - destruct He as [He1 He2]. pose proof (rec_closed m l p c R He1) as K.
     destruct (do_closed m p c) as [m1 rep]. exact K.
   - cbn [fst]. eapply rec_state_eq; [|exact R]. reflexivity.
-  - (* dial_address with an arbitrary multiaddress: refused, or the dial_address case *)
-    unfold do_dial_shape. destruct (limit_reached _ _); [exact R|].
-    destruct (DialShape.dial_shape LISTEN a) as [code|p|p]; [exact R| |exact R].
-    unfold do_dial_addr. destruct (limit_reached _ _); [exact R|].
-    assert (R0 : RecInv (set_known (bump_conn m) p) l) by (eapply rec_state_eq; [|exact R]; reflexivity).
-    destruct (can_dial _); try exact R0. cbn [fst].
-    eapply rec_state_eq; [intro q; apply so_pending|]. now apply rec_dialing.
+  - now apply rec_dial_shape.
+  - unfold do_hdial_peer. destruct (handle_gate m p); try exact R. destruct clog; [exact R|].
+    pose proof (rec_dial_peer L m l p ts fl R) as K. destruct (do_dial_peer L m p ts fl). exact K.
+  - unfold do_hdial_addr. destruct (negb _); [exact R|]. destruct clog; [exact R|].
+    pose proof (rec_dial_shape L m l a false R) as K. destruct (do_dial_shape L m a false). exact K.
 Qed.
 
 (* ------------------------------------------------------------------------------------------ *)
@@ -356,42 +395,68 @@ Proof. apply keys_remove_key. Qed.
 Lemma accepting_closed m p c : accepting (fst (do_closed m p c)) = accepting m.
 Proof. unfold do_closed. destruct (st_on_closed _ c). reflexivity. Qed.
 
-(* handlers other than ConnectionEstablished / AcceptDone do not touch the accept futures *)
-Lemma accepting_other L m e :
-  match e with TrEstablished _ _ _ _ | AcceptDone _ _ => False | _ => True end ->
-  accepting (fst (step L m e)) = accepting m.
+Lemma accepting_dial_peer L m p ts fl : accepting (fst (do_dial_peer L m p ts fl)) = accepting m.
 Proof.
-  destruct e as [p f|p f|p|c pa|c f|c pa|p c lst f|c|c ok|p c| |a]; cbn [step]; intro H; try contradiction.
-  - unfold do_dial_peer. destruct (limit_reached _ _); [reflexivity|]. destruct (p =? LOCAL); [reflexivity|].
-    destruct (can_dial _); try reflexivity. destruct (negb _); [reflexivity|]. destruct f; reflexivity.
-  - unfold do_dial_addr. destruct (limit_reached _ _); [reflexivity|].
-    destruct (can_dial _); try reflexivity. destruct f; reflexivity.
-  - reflexivity.
-  - unfold do_dial_failure. destruct (lookup _ _); reflexivity.
-  - unfold do_opened. destruct (lookup _ _); [|reflexivity]. destruct (state_of _ _); try reflexivity.
-    destruct f; reflexivity.
-  - unfold do_open_failure. destruct (lookup _ _); [|reflexivity]. destruct (state_of _ _); reflexivity.
-  - destruct (limit_reached _ _); reflexivity.
-  - pose proof (accepting_closed m p c) as K. destruct (do_closed m p c). exact K.
-  - reflexivity.
-  - unfold do_dial_shape. destruct (limit_reached _ _); [reflexivity|].
-    destruct (DialShape.dial_shape LISTEN a) as [code|p|p]; try reflexivity.
-    unfold do_dial_addr. destruct (limit_reached _ _); [reflexivity|].
-    destruct (can_dial _); reflexivity.
+  unfold do_dial_peer. destruct (limit_reached _ _); [reflexivity|]. destruct (p =? LOCAL); [reflexivity|].
+  destruct (can_dial _); try reflexivity. destruct (is_nil _); [reflexivity|].
+  destruct (open_calls L (next_conn m) ts fl) as [calls ok]. destruct ok; reflexivity.
 Qed.
 
-Lemma established_accepting L m p c lst f :
-  let r := do_established L m p c lst f in
+Lemma accepting_dial_shape L m a f : accepting (fst (do_dial_shape L m a f)) = accepting m.
+Proof.
+  assert (Hd : forall p t, accepting (fst (do_dial_addr L m p t a f)) = accepting m).
+  { intros p t. unfold do_dial_addr. destruct (negb _); [reflexivity|].
+    destruct (can_dial _); cbn [fst]; try (now rewrite add_addr_accepting).
+    destruct f; cbn [fst set_state set_pending accepting]; now rewrite add_addr_accepting. }
+  unfold do_dial_shape. destruct (limit_reached _ _); [reflexivity|].
+  destruct (DialShape.dial_shape LISTEN a) as [code|p|p]; [reflexivity | apply Hd | apply Hd].
+Qed.
+
+(* handlers other than ConnectionEstablished / AcceptDone do not touch the accept futures *)
+Lemma accepting_other L m e :
+  match e with TrEstablished _ _ _ _ _ | AcceptDone _ _ => False | _ => True end ->
+  accepting (fst (step L m e)) = accepting m.
+Proof.
+  destruct e as [p ts fl|p t f|p t|c t pa|c t f|c t pa|p c t lst f|c t|c ok|p c| |a|p ts fl clog|a clog];
+    cbn [step]; intro H; try contradiction.
+  - apply accepting_dial_peer.
+  - apply accepting_dial_shape.
+  - cbn [fst]. destruct (installed L _); [apply add_addr_accepting | reflexivity].
+  - destruct (installed L t); [|reflexivity]. unfold do_dial_failure.
+    destruct (lookup _ _); cbn [fst set_state set_pending accepting]; now rewrite add_addr_accepting.
+  - destruct (installed L t); [|reflexivity]. unfold do_opened. destruct (lookup _ _); [|reflexivity].
+    destruct (state_of _ _); cbn [fst]; try (now rewrite add_addr_accepting).
+    destruct (negb _); [cbn [fst set_state accepting]; now rewrite add_addr_accepting|].
+    destruct f; cbn [fst set_state set_pending accepting]; now rewrite add_addr_accepting.
+  - destruct (installed L t); [|reflexivity]. unfold do_open_failure.
+    destruct (lookup _ _); cbn [fst]; [|apply add_addr_accepting].
+    destruct (state_of _ _); cbn [fst]; try (apply add_addr_accepting).
+    destruct (mem t _); [|apply add_addr_accepting].
+    destruct (remove_tr t _); cbn [fst set_oerrs set_state set_pending accepting]; apply add_addr_accepting.
+  - destruct (installed L t); [|reflexivity]. destruct (limit_reached _ _); reflexivity.
+  - pose proof (accepting_closed m p c) as K. destruct (do_closed m p c). exact K.
+  - reflexivity.
+  - apply accepting_dial_shape.
+  - unfold do_hdial_peer. destruct (handle_gate m p); try reflexivity. destruct clog; [reflexivity|].
+    pose proof (accepting_dial_peer L m p ts fl) as K. destruct (do_dial_peer L m p ts fl). exact K.
+  - unfold do_hdial_addr. destruct (negb _); [reflexivity|]. destruct clog; [reflexivity|].
+    pose proof (accepting_dial_shape L m a false) as K. destruct (do_dial_shape L m a false). exact K.
+Qed.
+
+Lemma established_accepting L m p c t lst f :
+  let r := do_established L m p c t lst f in
   if existsb (is_accept c) (snd r) && negb f
   then accepting (fst r) = accepting m ++ [(c, (p, lst))]
   else accepting (fst r) = accepting m.
 Proof.
   cbn zeta. unfold do_established.
-  set (m0 := if lst then m else set_known m p).
+  set (me := set_oerrs m (remove_key c (oerrs m))).
+  set (m0 := if lst then me else add_addr me p (canon p t)).
   set (m1 := set_pending m0 (remove_key c (pending m0))).
-  assert (A1 : accepting m1 = accepting m) by (subst m1 m0; destruct lst; reflexivity).
+  assert (A1 : accepting m1 = accepting m).
+  { subst m1 m0 me. cbn [set_pending accepting]. destruct lst; [reflexivity | now rewrite add_addr_accepting]. }
   assert (Hchk :
-    let r := do_established_checked L m1 p c lst f in
+    let r := do_established_checked L m1 p c t lst f in
     if existsb (is_accept c) (snd r) && negb f
     then accepting (fst r) = accepting m ++ [(c, (p, lst))]
     else accepting (fst r) = accepting m).
@@ -402,19 +467,25 @@ Proof.
         set (m3 := if lst then set_limits m2 (limit_insert (max_in L) c (ins m2)) (outs m2)
                    else set_limits m2 (ins m2) (limit_insert (max_out L) c (outs m2))).
         assert (A3 : accepting m3 = accepting m) by (subst m3 m2; destruct lst; exact A1).
-        set (mc := match state_of m1 p with
-                   | Opening d => (set_pending m3 (remove_key d (pending m3)), [CallCancel d])
-                   | _ => (m3, [])
-                   end).
-        assert (A4 : accepting (fst mc) = accepting m) by (subst mc; destruct (state_of m1 p); exact A3).
-        assert (C4 : existsb (is_accept c) (snd mc) = false) by (subst mc; destruct (state_of m1 p); reflexivity).
-        destruct mc as [m4 cancels]. cbn [fst snd] in A4, C4.
-        assert (Hacc : existsb (is_accept c) (cancels ++ [CallAccept c]) = true).
-        { rewrite existsb_app, C4. cbn [existsb is_accept orb]. lia. }
-        destruct f.
-        * pose proof (accepting_closed m4 p c) as K. destruct (do_closed m4 p c) as [m5 rp].
-          cbn [fst snd] in *. rewrite Hacc. cbn [andb negb]. congruence.
-        * cbn [fst snd]. rewrite Hacc. cbn [andb negb set_accepting accepting]. now rewrite A4.
+        assert (Hfin : forall m4 cancels, accepting m4 = accepting m -> existsb (is_accept c) cancels = false ->
+                  let r := est_finish m4 p c t lst f cancels in
+                  if existsb (is_accept c) (snd r) && negb f
+                  then accepting (fst r) = accepting m ++ [(c, (p, lst))]
+                  else accepting (fst r) = accepting m).
+        { intros m4 cancels A4 C4. cbn zeta. unfold est_finish.
+          assert (Hacc : existsb (is_accept c) (cancels ++ [CallAccept c t]) = true).
+          { rewrite existsb_app, C4. cbn [existsb is_accept orb]. lia. }
+          destruct f.
+          * pose proof (accepting_closed m4 p c) as K. destruct (do_closed m4 p c) as [m5 rp].
+            cbn [fst snd] in *. rewrite Hacc. cbn [andb negb]. congruence.
+          * cbn [fst snd]. rewrite Hacc. cbn [andb negb set_accepting accepting]. now rewrite A4. }
+        assert (Hcan : forall d ts, existsb (is_accept c) (map (CallCancel d) ts) = false).
+        { intros d ts. induction ts as [|x r IH]; cbn [map existsb is_accept orb]; [reflexivity | exact IH]. }
+        destruct (state_of m1 p) as [r sc|d ts|d|d]; cbv beta iota zeta;
+          try (apply Hfin; [exact A3 | reflexivity]).
+        destruct (negb (forallb (installed L) ts)).
+        * cbn [fst snd existsb is_accept orb andb]. exact A1.
+        * apply Hfin; [exact A3 | apply Hcan].
       + cbn [fst snd existsb is_accept orb andb]. exact A1.
   }
   destruct (lookup c (pending m0)) as [dp|].
@@ -427,17 +498,19 @@ Lemma ann_step_rule L m l ann e :
   AnnInv (fst (step L m e)) (live_step e (snd (step L m e)) l) (ann_step e (snd (step L m e)) ann).
 Proof.
   intros A I He.
-  assert (Hother : match e with TrEstablished _ _ _ _ | AcceptDone _ _ | Closed _ _ => False | _ => True end ->
+  assert (Hother : match e with TrEstablished _ _ _ _ _ | AcceptDone _ _ | Closed _ _ => False | _ => True end ->
                    AnnInv (fst (step L m e)) (live_step e (snd (step L m e)) l) (ann_step e (snd (step L m e)) ann)).
   { intro H. assert (El : live_step e (snd (step L m e)) l = l) by (destruct e; try contradiction; reflexivity).
     assert (Ea : ann_step e (snd (step L m e)) ann = flat_map est_conn (snd (step L m e)) ++ ann)
       by (destruct e; try contradiction; reflexivity).
     unfold AnnInv. rewrite El, Ea, accepting_other by (destruct e; try contradiction; exact Logic.I).
     intros c Hc. destruct (A c Hc); [now left|right; apply in_app_iff; now right]. }
-  destruct e as [p f|p f|p|c pa|c f|c pa|p c lst f|c|c ok|p c| |a]; try (apply Hother; exact Logic.I).
+  destruct e as [p ts fl|p t f|p t|c t pa|c t f|c t pa|p c t lst f|c t|c ok|p c| |a|p ts fl clog|a clog]; try (apply Hother; exact Logic.I).
   - (* ConnectionEstablished *)
-    cbn [step live_step ann_step]. pose proof (established_accepting L m p c lst f) as K. cbn zeta in K.
-    unfold AnnInv. destruct (existsb (is_accept c) (snd (do_established L m p c lst f)) && negb f); rewrite K.
+    cbn [step live_step ann_step]. destruct (installed L t).
+    2:{ cbn [fst snd existsb andb flat_map app]. exact A. }
+    pose proof (established_accepting L m p c t lst f) as K. cbn zeta in K.
+    unfold AnnInv. destruct (existsb (is_accept c) (snd (do_established L m p c t lst f)) && negb f); rewrite K.
     + intros d [Hd|Hd].
       * cbn [fst] in Hd. subst d. left. rewrite keys_app. apply in_app_iff. right. now left.
       * destruct (A d Hd); [left; rewrite keys_app; apply in_app_iff; now left|right; apply in_app_iff; now right].
@@ -590,15 +663,20 @@ Proof.
   - destruct (r =? c); cbn [fst snd]; [eauto|discriminate].
 Qed.
 
-Lemma disconnected_not_refused L m p d f :
-  state_of m p = Disconnected d -> ~ In (Ret RET_CONNECTED) (snd (do_dial_peer L m p f)).
+Lemma disconnected_not_refused L m p d ts fl :
+  state_of m p = Disconnected d -> ~ In (Ret RET_CONNECTED) (snd (do_dial_peer L m p ts fl)).
 Proof.
   intro Hs. unfold do_dial_peer.
   destruct (limit_reached _ _); [cbn; intros [H|[]]; discriminate|].
   destruct (p =? LOCAL); [cbn; intros [H|[]]; discriminate|].
   rewrite Hs. destruct d; cbn [can_dial]; [cbn; intros [H|[]]; discriminate|].
-  destruct (negb _); [cbn; intros [H|[]]; discriminate|].
-  destruct f; cbn; intros [H|[H|[]]]; discriminate.
+  destruct (is_nil _); [cbn; intros [H|[]]; discriminate|].
+  assert (Hoc : forall c, ~ In (Ret RET_CONNECTED) (fst (open_calls L c ts fl))).
+  { intro c. induction ts as [|x r IH]; cbn [open_calls fst]; [tauto|].
+    destruct (installed L x); [|exact IH]. destruct (mem x fl); cbn [fst In]; [intros [H|[]]; discriminate|].
+    destruct (open_calls L c r fl) as [os ok]. cbn [fst In] in *. intros [H|H]; [discriminate | exact (IH H)]. }
+  specialize (Hoc (next_conn m)). destruct (open_calls L (next_conn m) ts fl) as [calls ok]. cbn [fst] in Hoc.
+  destruct ok; cbn [snd]; rewrite in_app_iff; cbn [In]; intros [H|[H|[]]]; try discriminate; exact (Hoc H).
 Qed.
 
 (* afterwards the peer counts as disconnected: a dial is not refused as AlreadyConnected, and with a
@@ -607,7 +685,7 @@ Lemma closed_then_dialable L m p c :
   In (EvClosed p c) (snd (step L m (Closed p c))) ->
   let m' := fst (step L m (Closed p c)) in
   (exists d, state_of m' p = Disconnected d) /\
-  forall f, ~ In (Ret RET_CONNECTED) (snd (do_dial_peer L m' p f)).
+  forall ts fl, ~ In (Ret RET_CONNECTED) (snd (do_dial_peer L m' p ts fl)).
 Proof.
   intro Hin. cbn zeta.
   assert (Hd : exists d, state_of (fst (step L m (Closed p c))) p = Disconnected d).
@@ -616,17 +694,17 @@ Proof.
     destruct (st_on_closed (state_of m p) c) as [s' rep]. cbn [fst snd] in *.
     assert (rep = true) as -> by (destruct rep; [reflexivity|destruct Hin]).
     destruct (D eq_refl) as [d ->]. exists d. rewrite K. assert (p =? p = true) as -> by lia. reflexivity. }
-  split; [exact Hd|]. destruct Hd as [d Hd]. intro f. eapply disconnected_not_refused. exact Hd.
+  split; [exact Hd|]. destruct Hd as [d Hd]. intros ts fl. eapply disconnected_not_refused. exact Hd.
 Qed.
 
 (* F-C07b, manager side: a rolled-back accept can take away the last connection of a peer without
    the application being told (the `connection_closed` flag of the rollback is discarded) *)
 Lemma rollback_silent_refuted :
-  let L := mkLimits None None in
-  let es := [TrEstablished 5 0 true false; AcceptDone 0 true; TrEstablished 5 1 true false;
+  let L := mkLimits None None [TCP; WS] in
+  let es := [TrEstablished 5 0 TCP true false; AcceptDone 0 true; TrEstablished 5 1 WS true false;
              Closed 5 0; AcceptDone 1 false] in
   env_trace L init [] es /\
-  concat (snd (run L init es)) = [CallAccept 0; EvEstablished 5 0; CallAccept 1] /\
+  concat (snd (run L init es)) = [CallAccept 0 TCP; EvEstablished 5 0; CallAccept 1 WS] /\
   state_of (fst (run L init es)) 5 = Disconnected None.
 Proof. vm_compute. intuition (try congruence; try discriminate). Qed.
 
@@ -704,11 +782,14 @@ Proof.
       replace os with (snd (step L (nd_mgr nd) me)) by now rewrite Es.
       split; [tauto|]. split; [reflexivity|]. split; cbn [nd_mgr nd_tasks]; [now apply inv_step| |exact IU].
       intros c p t Hin G. destruct (IT c p t Hin G) as [[b Hb] Hacc].
-      destruct me as [p0 f|p0 f|p0|c0 pa|c0 f|c0 pa|p0 c0 lst f|c0|c0 ok|p0 c0| |a0]; try discriminate Ei;
+      destruct me as [p0 ts0 fl0|p0 t0 f|p0 t0|c0 t0 pa|c0 t0 f|c0 t0 pa|p0 c0 t0 lst f|c0 t0|c0 ok|p0 c0| |a0|p0 ts0 fl0 cl0|a0 cl0];
+        try discriminate Ei;
         try (rewrite accepting_other by exact Logic.I; cbn [live_step]; split; [eauto|exact Hacc]).
-      cbn [step live_step env_ok] in *. pose proof (established_accepting L (nd_mgr nd) p0 c0 lst f) as K. cbn zeta in K.
+      cbn [step live_step env_ok] in *. destruct (installed L t0).
+      2:{ cbn [fst snd existsb andb]. split; [eauto|exact Hacc]. }
+      pose proof (established_accepting L (nd_mgr nd) p0 c0 t0 lst f) as K. cbn zeta in K.
       assert (c <> c0) by congruence.
-      destruct (existsb (is_accept c0) (snd (do_established L (nd_mgr nd) p0 c0 lst f)) && negb f); rewrite K.
+      destruct (existsb (is_accept c0) (snd (do_established L (nd_mgr nd) p0 c0 t0 lst f)) && negb f); rewrite K.
       * split; [exists b; cbn [lookup]; assert (c0 =? c = false) as -> by lia; exact Hb|].
         rewrite keys_app. intro Hx. apply in_app_iff in Hx. destruct Hx as [Hx|[Hx|[]]]; [contradiction|].
         cbn [fst] in Hx. congruence.
